@@ -115,7 +115,7 @@ func newSVGFam(tier string) *strFam {
 	} {
 		// small units: these spaces contain self references and 2-cycles (#a, #b), and the engine gives up
 		// on a unit after 200 dead workers; the graphs proper are in the svg-references family
-		f.add(sp(a.tag, refAlpha, T(3, 4), "", ""), 128, svgExec(a.tpl, true))
+		f.add(sp(a.tag, refAlpha, T(3, 4), "", ""), 32, svgExec(a.tpl, true))
 	}
 
 	// style attribute and <style> element
